@@ -106,7 +106,12 @@ pub fn expr(rng: &mut Rng, depth: u32) -> String {
         4 => format!("~{}", expr(rng, depth - 1)),
         5 => format!("{{{}, {}}}", expr(rng, depth - 1), expr(rng, depth - 1)),
         6 => format!("{} == {}", expr(rng, depth - 1), expr(rng, depth - 1)),
-        7 => format!("f({})", expr(rng, depth - 1)),
+        7 => match rng.below(4) {
+            0 => format!("f({})", expr(rng, depth - 1)),
+            1 => format!("{}'({})", 1 + rng.below(16), expr(rng, depth - 1)),
+            2 => format!("{}[{}'({})]", ident(rng), 1 + rng.below(8), ident(rng)),
+            _ => format!("{}'({})", rng.pick(&["int", "signed", "unsigned", "logic"]), expr(rng, depth - 1)),
+        },
         _ => format!("{} << {}", expr(rng, depth - 1), number(rng)),
     }
 }
@@ -407,7 +412,8 @@ pub fn pp_program(rng: &mut Rng, max_depth: usize, rich: bool) -> PpProgram {
         let name = format!("f{}.svh", level);
         let path = format!("{}/{}", dir, name);
         let mut body = String::new();
-        body.push_str(&format!("// file {}\n", name));
+        // random padding: offsets in different files must be allowed to coincide or not
+        body.push_str(&format!("// file {} {}\n", name, "#".repeat(rng.usize_below(48))));
         body.push_str(&format!("`define M{} v{}\n", level, level));
         if rng.coin() {
             body.push_str(&format!("`ifndef G{}\n`define G{}\n`endif\n", level, level));
@@ -423,7 +429,7 @@ pub fn pp_program(rng: &mut Rng, max_depth: usize, rich: bool) -> PpProgram {
     }
     let mut top = String::new();
     if rich || rng.coin() {
-        top.push_str("// top file\n");
+        top.push_str(&format!("// top file {}\n", "#".repeat(rng.usize_below(48))));
     }
     top.push_str("`define TOPW 8\n");
     if let Some(c) = &child {
@@ -776,7 +782,25 @@ pub fn inject_directives(rng: &mut Rng, text: &str) -> String {
     let n = 1 + rng.usize_below(3);
     for _ in 0..n {
         let p = *rng.pick(&pos);
-        match rng.below(7) {
+        match rng.below(9) {
+            7 | 8 => {
+                // conditional blocks kept as trivia, with directives nested in the body and trivia after the `endif
+                let inner = match rng.below(4) {
+                    0 => "`define B 1\n".to_string(),
+                    1 => "  `ifdef B\n  `endif\n".to_string(),
+                    2 => "`undef B\n`define C(x) x\n".to_string(),
+                    _ => "`ifndef B\n`else\n`endif\n".to_string(),
+                };
+                let tail = match rng.below(5) {
+                    0 => "// trailing comment\n",
+                    1 => "`timescale 1ns/1ps\n",
+                    2 => " /* c */\n",
+                    3 => "`resetall\n",
+                    _ => "",
+                };
+                let head = *rng.pick(&["`ifdef A", "`ifndef A", "`ifdef A\n`elsif Z"]);
+                ins.push((p, format!("\n{}\n{}`endif\n{}", head, inner, tail)));
+            }
             0 | 1 => {
                 // a balanced region: begin at p, end at a later position
                 let later: Vec<usize> = pos.iter().cloned().filter(|q| *q > p).collect();
@@ -902,9 +926,15 @@ pub fn capacity_sensitive_probe(rng: &mut Rng) -> String {
 /// non-ANSI module whose port declaration FOLLOWS the items: the ANSI alternative parses all items, fails
 /// at the declaration, and the non-ANSI alternative parses them again (replaying or recomputing memo entries)
 pub fn rewrap_nonansi(text: &str) -> String {
+    rewrap_nonansi_with(text, "")
+}
+
+/// same, with `after_header` (trivia, a pragma envelope, a directive) right behind the header: the white space
+/// there is parsed by the ANSI attempt and again by the non-ANSI one
+pub fn rewrap_nonansi_with(text: &str, after_header: &str) -> String {
     if let Some(body) = text.strip_prefix("module m;\n") {
         if let Some(i) = body.rfind("endmodule") {
-            return format!("module m(zz_p);\n{}  input zz_p;\n{}", &body[..i], &body[i..]);
+            return format!("module m(zz_p);\n{}{}  input zz_p;\n{}", after_header, &body[..i], &body[i..]);
         }
     }
     text.to_string()
@@ -912,6 +942,15 @@ pub fn rewrap_nonansi(text: &str) -> String {
 
 /// `pragma with its expression list broken over lines in every way
 pub fn pragma_lines(rng: &mut Rng) -> String {
+    if rng.chance(1, 4) {
+        // a protected envelope: whatever stands between the two pragmas is ordinary text for the parser
+        let inner = match rng.below(3) {
+            0 => format!("  wire env{};\n", rng.below(9)),
+            1 => "  // encrypted payload\n".to_string(),
+            _ => String::new(),
+        };
+        return format!("`pragma protect begin_protected\n{}`pragma protect end_protected\n", inner);
+    }
     let name = *rng.pick(&["protect", "foo", "translate_off", "reset"]);
     let parts: Vec<&str> = match rng.below(5) {
         0 => vec!["key_keyname", "=", "\"F\""],
